@@ -8,10 +8,11 @@ Open Scope N_scope.
 
 Section Cut.
   Variable kb : kbase.
+  Variable bf : nat.
 
   (* the clause loop never reports a cut to the outside *)
   Lemma call_loop_no_signal : forall fuel t ss nobt child idx n w nd' r c w',
-    call_loop kb fuel t ss nobt child idx n w = Ok (nd', r, c, w') -> c = false.
+    call_loop kb bf fuel t ss nobt child idx n w = Ok (nd', r, c, w') -> c = false.
   Proof.
     induction fuel as [|f IH]; intros t ss nobt child idx n w nd' r c w' H; [discriminate|].
     rewrite call_loop_S in H. unfold call_body in H.
@@ -26,7 +27,7 @@ Section Cut.
 
   (* A call node absorbs the cut: whatever happens below it, its caller sees no signal. *)
   Theorem call_absorbs_cut fuel t ss nobt child idx n w nd' r c w' :
-    next kb fuel (NCall t ss nobt child idx n) w = Ok (nd', r, c, w') -> c = false.
+    next kb bf fuel (NCall t ss nobt child idx n) w = Ok (nd', r, c, w') -> c = false.
   Proof.
     destruct fuel as [|f]; [discriminate|]. rewrite next_S. unfold next_body. simpl node_nobt.
     destruct nobt; [intro H; inversion H; reflexivity|].
@@ -38,10 +39,10 @@ Section Cut.
 
   (* A node that reports a cut is committed: its no_backtracking flag is set. *)
   Definition commits_next (fuel : nat) : Prop :=
-    forall nd w nd' r w', next kb fuel nd w = Ok (nd', r, true, w') -> node_nobt nd' = true.
+    forall nd w nd' r w', next kb bf fuel nd w = Ok (nd', r, true, w') -> node_nobt nd' = true.
   Definition commits_and (fuel : nat) : Prop :=
     forall ss nobt more head tail optail acc w nd' r w',
-      and_loop kb fuel ss nobt more head tail optail acc w = Ok (nd', r, true, w') ->
+      and_loop kb bf fuel ss nobt more head tail optail acc w = Ok (nd', r, true, w') ->
       (acc = true -> nobt = true) -> node_nobt nd' = true.
 
   Lemma commits_all : forall fuel, commits_next fuel /\ commits_and fuel.
@@ -100,30 +101,30 @@ Section Cut.
   Qed.
 End Cut.
 
-Theorem cut_commits kb fuel nd w nd' r w' :
-  next kb fuel nd w = Ok (nd', r, true, w') -> node_nobt nd' = true.
-Proof. apply (proj1 (commits_all kb fuel)). Qed.
+Theorem cut_commits kb bf fuel nd w nd' r w' :
+  next kb bf fuel nd w = Ok (nd', r, true, w') -> node_nobt nd' = true.
+Proof. apply (proj1 (commits_all kb bf fuel)). Qed.
 
 (* ... and a committed node is dead: at most the answer being derived, nothing afterwards *)
-Theorem cut_then_nothing_more kb fuel nd w nd' r w' :
-  next kb fuel nd w = Ok (nd', r, true, w') ->
+Theorem cut_then_nothing_more kb bf fuel nd w nd' r w' :
+  next kb bf fuel nd w = Ok (nd', r, true, w') ->
   forall m fuel2 w2 rs nd2 w3,
-    ask_again kb fuel2 m nd' w2 = Ok (rs, nd2, w3) -> Forall (fun x => x = None) rs /\ w3 = w2.
+    ask_again kb bf fuel2 m nd' w2 = Ok (rs, nd2, w3) -> Forall (fun x => x = None) rs /\ w3 = w2.
 Proof.
   intro H. apply cut_commits in H. apply dead_nobt in H. revert H. generalize nd'. clear.
   intros nd Hd m. revert nd Hd.
   induction m as [|m IH]; intros nd Hd fuel2 w2 rs nd2 w3 Ha; simpl in Ha.
   - inversion Ha; subst. split; [constructor|reflexivity].
-  - destruct (next kb fuel2 nd w2) as [[[[n1 r1] c1] w1]| |] eqn:E; simpl in Ha; try discriminate.
-    destruct (dead_stays _ _ _ _ _ _ _ _ Hd E) as (-> & -> & -> & Hd1).
-    destruct (ask_again kb fuel2 m n1 w2) as [[[rs' nd'] w']| |] eqn:E2; simpl in Ha; try discriminate.
+  - destruct (next kb bf fuel2 nd w2) as [[[[n1 r1] c1] w1]| |] eqn:E; simpl in Ha; try discriminate.
+    destruct (dead_stays _ _ _ _ _ _ _ _ _ Hd E) as (-> & -> & -> & Hd1).
+    destruct (ask_again kb bf fuel2 m n1 w2) as [[[rs' nd'] w']| |] eqn:E2; simpl in Ha; try discriminate.
     inversion Ha; subst. destruct (IH _ Hd1 _ _ _ _ _ E2) as [Hf ->]. split; [constructor; auto|reflexivity].
 Qed.
 
 (* the call whose clause body ran the cut: committed as well (no later clause, no further answer) *)
-Theorem cut_commits_the_call kb f t ss c0 idx n w c1 sol w1 nd' r c w' :
-  next kb f c0 w = Ok (c1, sol, true, w1) ->
-  next kb (S f) (NCall t ss false (Some c0) idx n) w = Ok (nd', r, c, w') ->
+Theorem cut_commits_the_call kb bf f t ss c0 idx n w c1 sol w1 nd' r c w' :
+  next kb bf f c0 w = Ok (c1, sol, true, w1) ->
+  next kb bf (S f) (NCall t ss false (Some c0) idx n) w = Ok (nd', r, c, w') ->
   node_nobt nd' = true /\ c = false /\ r = sol.
 Proof.
   intros Hc H. rewrite next_S in H. unfold next_body in H. simpl in H. rewrite Hc in H. simpl in H.
